@@ -650,6 +650,22 @@ def r11_8(rep, prog):
         else:
             rep.violated('R11.8', inst, where, 'assignment after the cap is neither a lowering nor the forced bandwidth nor the CELT medium->wide exception; facts here: %s' %
                          [T.show_atom(a) for a in atoms][:5], key='raise:%s' % sx.show(n)[:50])
+    # the Nyquist caps are absolute: not even the forced bandwidth may follow them (the documented override only
+    # beats the automatic decision and max_bandwidth, not the sampling rate of the encoder)
+    for w in (1104, 1103, 1102, 1101):
+        if w not in caps:
+            continue
+        gbw = caps[w][0]
+        later = cf.reachable_from(gbw)
+        for b, i, n in asg:
+            rhs = sx.strip(n[2])
+            if b in later and b != caps[w][1] and ((cf.reachable_from(b) | {b}) & sinks) and sx.kind(rhs) == 'field' and rhs[3] == 'user_bandwidth':
+                rep.violated('R11.8', '%s:the forced bandwidth is applied before the Nyquist cap `bandwidth > %s`' % (prog.config, w), '%s:%s' % (f.file, sx.line(n)),
+                             '`%s` is reachable after the cap test at line %s: a forced bandwidth above the encoder\'s Nyquist band is coded as such' % (sx.show(n)[:60], sx.line(caps[w][2])),
+                             key='forced-after-nyquist:%s' % w)
+                break
+        else:
+            rep.holds('R11.8', '%s:the forced bandwidth is applied before the Nyquist cap `bandwidth > %s`' % (prog.config, w), '%s:%s' % (f.file, sx.line(caps[w][2])), 'no store of user_bandwidth is reachable after the cap')
     # decide_fec receives &st->bandwidth: it may only decrement or restore it
     if prog.has_fn('decide_fec'):
         g = prog.fn('decide_fec')
